@@ -117,7 +117,8 @@ Definition ident : Type := (list N * list N * direction)%type.
 Definition ident_of (m : mt) : ident := (m_user m, m_path m, m_dir m).
 
 Definition dir_digit (d : direction) : N := match d with Upload => 48%N | Download => 49%N end.   (* str(direction.value) *)
-(* the string that is hashed: username + remote_path + str(direction.value), no separators *)
+(* the string hashed by versions before the fix of F21: username + remote_path + str(direction.value), no
+   separators; only used to describe databases written by those versions *)
 Definition keystr (i : ident) : list N := match i with (u, p, d) => u ++ p ++ [dir_digit d] end.
 
 Fixpoint bytes_eqb (a b : list N) : bool :=
@@ -136,8 +137,9 @@ Section Cache.
   Variable K : Type.
   Variable K_eqb : K -> K -> bool.
   Variable H : list N -> K.               (* sha256(...).hexdigest() *)
+  Variable enc : ident -> list N.         (* repr((username, remote_path, direction.value)).encode('utf-8') *)
 
-  Definition key (m : mt) : K := H (keystr (ident_of m)).
+  Definition key (m : mt) : K := H (enc (ident_of m)).
 
   Definition db : Type := list (K * prec).
 
@@ -149,13 +151,11 @@ Section Cache.
   (* database[key] = transfer *)
   Definition put (k : K) (r : prec) (d : db) : db := (k, r) :: remove_key k d.
 
-  Definition listed (ts : list mt) (r : prec) : bool :=
-    existsb (fun t => ident_eqb (ident_of t) (ident_of (p_m r))) ts.
-
-  (* TransferShelveCache.write *)
+  (* TransferShelveCache.write: store every listed transfer under its key, then delete every other key
+     (stale transfers and entries stored under the keys of older versions) *)
   Definition write (d : db) (ts : list mt) : db :=
     let d1 := fold_left (fun acc t => put (key t) (getstate t) acc) ts d in
-    filter (fun kr => listed ts (snd kr)) d1.
+    filter (fun kr => existsb (K_eqb (fst kr)) (map key ts)) d1.
 
   (* TransferShelveCache.read (order unspecified) followed by unpickling *)
   Definition read (d : db) : list (option mt) := map (fun kr => setstate (snd kr)) d.
@@ -171,8 +171,7 @@ Section Cache.
     match l with [] => [] | Some x :: r => x :: somes r | None :: r => somes r end.
   Definition load (d : db) : list mt := add_all [] (map repair (somes (read d))).
 
-  Definition key_injective_on (ts : list mt) : Prop :=
-    forall a b, In a ts -> In b ts -> key a = key b -> ident_of a = ident_of b.
-  (* every stored record sits under the key of its own identity (true of every database the cache wrote) *)
-  Definition db_ok (d : db) : Prop := forall k r, In (k, r) d -> k = H (keystr (ident_of (p_m r))).
+  (* sha256 does not collide on the encodings of the listed transfers *)
+  Definition hash_injective_on (ts : list mt) : Prop :=
+    forall a b, In a ts -> In b ts -> H (enc (ident_of a)) = H (enc (ident_of b)) -> enc (ident_of a) = enc (ident_of b).
 End Cache.
